@@ -8,12 +8,14 @@ CONSTANTS TraceFile, Check
 Tr == ndJsonDeserialize(TraceFile)
 VARIABLES l, obs, ev,
           hit,    \* history: writers that were in flight when an abort took effect since they entered
-          who     \* process of the last step
-vars == <<l, obs, ev, hit, who>>
+          who,    \* process of the last step
+          cfail   \* history: the socket refused to clear its write deadline
+vars == <<l, obs, ev, hit, who, cfail>>
 InFlightPCs == {"w_write", "f_load", "f_caslast", "f_cas"}
-Init == l = 2 /\ obs = Tr[1].post /\ ev = "Reset" /\ hit = {} /\ who = "-"
+Init == l = 2 /\ obs = Tr[1].post /\ ev = "Reset" /\ hit = {} /\ who = "-" /\ cfail = FALSE
 Step == /\ l <= Len(Tr) /\ l' = l + 1 /\ obs' = Tr[l].post /\ ev' = Tr[l].ev
         /\ who' = (IF "p" \in DOMAIN Tr[l] THEN Tr[l].p ELSE "-")
+        /\ cfail' = (IF Tr[l].ev = "Reset" THEN FALSE ELSE cfail \/ Tr[l].ev = "CClearFail")
         /\ LET e == Tr[l] IN
            hit' = CASE e.ev = "Reset" -> {}
                     \* the writer's CAS succeeded: it is inside the socket write now
@@ -26,9 +28,10 @@ Procs == DOMAIN obs.pc
 Writers == DOMAIN obs.left
 AllDone == \A p \in Procs : obs.pc[p] = "done"
 \* once every writer and aborter has returned, the state word is clean and the socket's write deadline is cleared
-Clean == AllDone => (obs.st.n = 0 /\ ~obs.st.b /\ ~obs.st.a /\ obs.dl = "none")
+\* (a deadline the socket refused to clear is the socket's; the state word is clean all the same)
+Clean == AllDone => (obs.st.n = 0 /\ ~obs.st.b /\ ~obs.st.a /\ (obs.dl = "none" \/ cfail))
 \* a later write by any user succeeds
-LaterWritesSucceed == ev = "Probe" => obs.probe = "ok"
+LaterWritesSucceed == ev = "Probe" => (obs.probe = "ok" \/ (cfail /\ obs.probe = "timeout"))
 \* liveness, judged at the end of the bounded fair gated drain: nobody is left spinning or blocked
 NoStuckWriter == ev = "Drain" => AllDone
 \* the counter equals the number of writers between start and finish
@@ -39,7 +42,7 @@ Clearing == Cardinality({p \in Writers : obs.pc[p] \in {"c_load", "c_clear", "c_
 CountExact == InFlight <= obs.st.n /\ obs.st.n <= InFlight + Clearing
 \* nobody's write fails with a timeout unless an abort took effect while that write was in flight
 \* (hit already reflects this step, which never changes it for a write)
-NoSpuriousTimeout == ev = "WWriteTmo" => who \in hit
+NoSpuriousTimeout == ev = "WWriteTmo" => (who \in hit \/ cfail)
 P(n) == CASE n = "Clean" -> Clean [] n = "LaterWritesSucceed" -> LaterWritesSucceed
           [] n = "NoStuckWriter" -> NoStuckWriter [] n = "CountExact" -> CountExact
           [] n = "NoSpuriousTimeout" -> NoSpuriousTimeout
